@@ -36,7 +36,7 @@ KEY_HELPERS = {"cls.unique_name_key", "Function.unique_name_key"}  # helper(s) t
 def legacy_claim_rule(ctx, program, rid):
     """TrigInfo.call_action interpreted up to the claim inside do_func_call, for @task_unique('n', kill_me=True / False)."""
     uid = "trigger.py::TrigInfo.call_action"
-    for kill_me in (True, False):
+    for kill_me, uname in ((True, "n"), (False, "n"), (False, "")):
         claims = []
 
         def claimer(i, n, a, k, c, o, claims=claims):
@@ -50,7 +50,7 @@ def legacy_claim_rule(ctx, program, rid):
                                     "Context": lambda i, n, a, k, c, o: [(c, ObjV("hctx", "Context"))], "Function.hass.bus.async_fire": lambda i, n, a, k, c, o: [(c, NONE)],
                                     "Function.store_hass_context": lambda i, n, a, k, c, o: [(c, NONE)], "Function.create_task": lambda i, n, a, k, c, o: [(c, ObjV("task", "Task"))],
                                     "Function.task_done_callback_ctx": lambda i, n, a, k, c, o: [(c, NONE)], "ast_ctx.call_func": lambda i, n, a, k, c, o: [(c, NONE)]})
-        heap = {"self.task_unique": Const("n"), "self.task_unique_kwargs": DictV([(Const("kill_me"), Const(kill_me))]), "self.action": ObjV("act", "EvalFunc"), "self.name": Const("file.x.f"),
+        heap = {"self.task_unique": Const(uname), "self.task_unique_kwargs": DictV([(Const("kill_me"), Const(kill_me))]), "self.action": ObjV("act", "EvalFunc"), "self.name": Const("file.x.f"),
                 "act.global_ctx_name": Const("file.x"), "act.name": Const("f"), "act.global_ctx": ObjV("g", "GlobalContext")}
         out = run_flow(program, uid, pol, args={"self": ObjV("self", "TrigInfo"), "notify_type": Const("state"), "func_args": DictV([(Const("trigger_type"), Const("state"))]),
                                                   "run_task": Const(True)}, heap=heap)
@@ -63,12 +63,13 @@ def legacy_claim_rule(ctx, program, rid):
         else:
             a, kw = claims[0]
             passed = kw.get("kill_me", a[1] if len(a) > 1 else Const(False))
-            if a[:1] != (Const("n"),):
+            if a[:1] != (Const(uname),):
                 bad = f"the run claims {a[:1]!r} instead of the decorator's name"
             elif passed != Const(kill_me):
                 bad = (f"the run claims the name with kill_me={passed!r} although the decorator says kill_me={kill_me}: of two runs started at the same instant the later one takes the "
                        f"name and cancels the earlier, already running one")
-        ctx.check(bad is None, rid, uid, f"legacy claim applies kill_me={kill_me}", msg=f"legacy call_action with @task_unique('n', kill_me={kill_me}): {bad}", key=f"legacy claim kill_me={kill_me}",
+        ctx.check(bad is None, rid, uid, f"legacy claim of {uname!r} applies kill_me={kill_me}", msg=f"legacy call_action with @task_unique({uname!r}, kill_me={kill_me}): {bad}"
+                  + (" (the empty string is a name like any other: task.unique('') and the new subsystem claim it)" if not uname else ""), key=f"legacy claim kill_me={kill_me}" + ("" if uname else " empty name"),
                   node=program.func(uid), rel="trigger.py")
 
 
@@ -408,7 +409,7 @@ def unique_table(ctx, program, rid):
                         label = f"name owned by {owner or 'nobody'}{' (+ a second name)' if extra else ''}, owner {'is' if old_ours else 'is not'} a pyscript task, " \
                                 f"caller {'is' if cur_ours else 'is not'} a pyscript task, kill_me={kill_me}"
                         other = owner is not None and owner != "T_cur"
-                        want_cancel = (["T_cur"] if (kill_me and other) else (["T_old"] if (other and not kill_me and old_ours) else []))
+                        want_cancel = (["T_cur"] if (kill_me and other and cur_ours) else ([] if (kill_me and other) else (["T_old"] if (other and not kill_me and old_ours) else [])))
                         bad = None
                         paths = exits(out)
                         for kind, c, desc in paths:
@@ -423,7 +424,7 @@ def unique_table(ctx, program, rid):
                                 continue
                             if cancelled != want_cancel:
                                 bad = f"hands {cancelled} to the reaper, specified {want_cancel}"
-                            elif kill_me and other:
+                            elif kill_me and other and cur_ours:
                                 if kind != "raise" or getattr(c.env.get("$exc"), "cls", "") != "CancelledError":
                                     bad = f"the caller continues ({desc}) although another task owns the name and kill_me is set"
                                 elif g_n2t != n2t or g_t2n != {k: sorted(v) for k, v in t2n.items()}:
